@@ -36,14 +36,26 @@ def run(prop, tier):
     states = transitions = 0
     programs = lowered = validated = agree = 0
     samples, per = [], {}
-    for cfg in cfgs:
-        res0, cases = p_core.tlc_cases(cfg)
+    for cfg in cfgs + ["products"]:
+        if cfg == "products":
+            # n-ary products with partial patterns (spec/ZyProducts.tla): layouts <product:E/A> with E < A
+            pcfg = "MC_ZyProducts_5.cfg" if tier == "quick" else "MC_ZyProducts_7.cfg"
+            tout = os.path.join(W, "products.out")
+            res0 = lib.run_tlc("ZyProducts.tla", pcfg, tout, workers=4, coverage=False, timeout=3000)
+            cases = os.path.join(W, "products.cases.ndjson")
+            res0["cases"] = lib.extract_replay(tout, cases)
+            os.remove(tout)
+            require(res0["cases"] >= 100, "too few product programs")
+            this_limit = 0
+        else:
+            res0, cases = p_core.tlc_cases(cfg)
+            this_limit = limit
         exports = os.path.join(W, cfg + ".exports.ndjson")
         summ = os.path.join(W, cfg + ".export.summary.json")
-        lib.zyconf(["export-ir", cases, exports, summ, str(limit)], timeout=6000)
+        lib.zyconf(["export-ir", cases, exports, summ, str(this_limit)], timeout=6000)
         s = json.load(open(summ))
-        out.add_findings(s["findings"])            # C18: internal errors / panics at any stage
-        require(s["lowered"] >= min(limit, 100), "only %d programs lowered" % s["lowered"])
+        out.add_findings(s["findings"])            # C18: internal errors / panics at any stage; C19: interpreter vs arithmetic
+        require(s["lowered"] >= min(this_limit or 100, 100), "only %d programs lowered" % s["lowered"])
         res, wf, results = tlc_sps(exports, cfg)
         recs = {}
         for l in open(exports):
